@@ -64,7 +64,8 @@ def changed_rule(path, o):
         for k, (val, flag) in v.items():
             if prev is not None and not flag and k in prev and prev[k][0] != val:
                 bad.append(f"input {k}={val} is not flagged as changed but was {prev[k][0]} in the previous vector ({c})")
-            if flag and k not in header:
+            # (the construction-time vector is not a row: its flags are nobody's business)
+            if prev is not None and flag and k not in header:
                 bad.append(f"input {k} is omitted from the header but flagged as changed ({c})")
         prev = v
     return bad
